@@ -12,6 +12,7 @@ for i in $(seq 1 $N); do
   [ -d $wt ] || { git -C /repo worktree add --detach $wt HEAD -q; cp /repo/Cargo.lock $wt/; }
   (
     export ANEMO_REPO=$wt VERIF_EVIDENCE_DIR=/var/tmp/anemo-verif-matrix/ev$i VERIF_REPLAY_DIR=/var/tmp/anemo-verif-matrix/rp$i
+    [ -z "$FULL" ] || export VERIF_SCRATCH=/var/tmp/anemo-verif-w$i VERIF_KANI_TARGET=/var/tmp/anemo-verif-w$i/kani-target     # own scratch copy and Kani build per worker
     mkdir -p $VERIF_EVIDENCE_DIR $VERIF_REPLAY_DIR
     awk -v n=$N -v i=$i 'NR % n == i % n' /tmp/seed_cross.list | while read id; do
       p=${id%-*}
